@@ -16,6 +16,17 @@ import (
 	"github.com/blues/jsonata-go/jtypes"
 )
 
+// roundNumber is jlib.Round with a check that the result is a
+// number: rounding a number near the largest double to a negative
+// precision can overflow ($round(1.7976931348623157e308, -308)).
+func roundNumber(x float64, prec jtypes.OptionalInt) (float64, error) {
+	res := jlib.Round(x, prec)
+	if math.IsInf(res, 0) || math.IsNaN(res) {
+		return 0, errors.New("the round function has resulted in a value that cannot be represented as a JSON number")
+	}
+	return res, nil
+}
+
 type environment struct {
 	parent  *environment
 	symbols map[string]reflect.Value
@@ -203,7 +214,7 @@ var baseEnv = initBaseEnv(map[string]Extension{
 		EvalContextHandler: defaultContextHandler,
 	},
 	"round": {
-		Func:               jlib.Round,
+		Func:               roundNumber,
 		UndefinedHandler:   defaultUndefinedHandler,
 		EvalContextHandler: defaultContextHandler,
 	},
